@@ -1133,7 +1133,7 @@ def panic_sites(targets, natives=None):
                             break
                     o = {"id": "%s:%s:%s" % (f.name[-45:], bn, callee[:50]), "ok": ok, "functions": [f.name],
                          "detail": ("allowed: %s" % why) if ok else "a call that panics on hostile input is reachable: %s in %s" % (callee, f.name),
-                         "where": "%s %s" % (f.name, bn), "path": p.trace if p else None}
+                         "where": "%s %s" % (f.name, bn), "path": p.trace if p else None, "needs_native": True}
                     if not ok:
                         for nrx, nat in natives.items():
                             if re.search(nrx, f.name):
@@ -1548,3 +1548,26 @@ RLE16_NATIVE = _native("verif_replay_rle16_opcode", "src/codec/rle.rs", """
             let input = [b as u8, 0, 0, 0, 0];
             let _ = rle_16_decompress(&input, 2, 2, &mut out);
         }""")
+
+
+BYCONSTRUCTION = "value of a field whose type is fixed by the layout built in the same function"
+SETUP_TARGETS = [
+    (r"^x224::<impl at src/core/x224\.rs[^>]*>::read_connection_confirm$", [(r"Result::<&IndexMap<String, Box<dyn Message>>, model::error::Error>::unwrap$", 1, "`negotiation` is a Component " + BYCONSTRUCTION)]),
+    (r"^read_conference_create_response$", []),
+    (r"^read_conference_create_response::\{closure#0\}$", [(r"Result::<u16, model::error::Error>::unwrap$", 1, "elements of Array<U16> are U16: " + BYCONSTRUCTION)]),
+    (r"^read_attach_user_confirm$", [(r"<Vec<Box<dyn Message>> as Index<usize>>::index$", 2, "confirm[0], confirm[1] of the two-element trame built in the same function (executed on all inputs by c05_mcs_attach_confirm_*)")]),
+    (r"^read_channel_join_confirm$", [(r"<Vec<Box<dyn Message>> as Index<usize>>::index$", 2, "confirm[0], confirm[1] of the two-element trame built in the same function (executed on all inputs by c05_mcs_join_confirm_*)")]),
+    (r"^mcs::<impl at src/core/mcs\.rs[^>]*>::read_connect_response$", []),
+    (r"^mcs::<impl at src/core/mcs\.rs[^>]*>::connect$", [(r"Option::<u16>::unwrap$", 3, "user_id is assigned Some(..) a few statements above in the same function")]),
+    (r"^client_connect$", []),
+    (r"^parse_payload$", []),
+    (r"^connect::<S>$|^sec::connect$|^connect$", []),
+]
+SESSION_TARGETS = [
+    (r"^global::<impl at src/core/global\.rs[^>]*>::(read|read_data_pdu|read_fast_path|read_demand_active_pdu|read_synchronize_pdu|read_control_pdu|read_font_map_pdu|from_stream|from_control|from_pdu|from_fp)$", []),
+    (r"^capability::<impl at src/core/capability\.rs[^>]*>::from_capability_set$", []),
+    (r"^ts_bitmap_data::\{closure#2\}$", [(r"Result::<u16, model::error::Error>::unwrap$", 1, "cbCompMainBodySize is a U16 of ts_cd_header: " + BYCONSTRUCTION)]),
+    (r"^mcs::<impl at src/core/mcs\.rs[^>]*>::read$", []),
+    (r"^x224::<impl at src/core/x224\.rs[^>]*>::read$", []),
+    (r"^tpkt::<impl at src/core/tpkt\.rs[^>]*>::(read|read_body)$", []),
+]
